@@ -44,8 +44,8 @@ func TestScratchSites(t *testing.T) {
 		}
 		for vi := 0; vi < max(1, e.NValid); vi++ {
 			v := e.Valid(vi)
-			if strings.HasPrefix(e.Name, "tkn20.") && (strings.Contains(e.Name, "Ciphertext") || strings.HasSuffix(e.Name, "Decrypt") || strings.Contains(e.Name, "golden")) {
-				if !strings.HasSuffix(e.Name, "Decrypt") || vi != 1 {
+			if strings.HasPrefix(e.Name, "tkn20.") && (strings.Contains(e.Name, "Ciphertext") || strings.HasSuffix(e.Name, "Key.Decrypt") || strings.Contains(e.Name, "golden")) {
+				if !strings.HasSuffix(e.Name, "Key.Decrypt") || vi != 1 {
 					for _, in := range tknSweepInputs(v) {
 						try(&e, in)
 					}
